@@ -5,6 +5,7 @@ mod gen;
 mod managed;
 mod rng;
 mod sched;
+mod unmanaged;
 
 use std::io::{BufRead, Write};
 
@@ -45,6 +46,26 @@ fn main() {
                 profile.max_actions = a;
             }
             let mut errors = 0;
+            let pname = arg(&args, "--profile").unwrap_or("default").to_string();
+            if pname.starts_with('u') {
+                for k in 0..n {
+                    let tseed = seed.wrapping_mul(1_000_003).wrapping_add(k);
+                    let t = unmanaged::gen_trace(tseed, &pname);
+                    writeln!(out, "trace {} seed={} profile={}", k, tseed, pname).unwrap();
+                    for l in &t.lines {
+                        writeln!(out, "{}", l).unwrap();
+                    }
+                    writeln!(out, "end").unwrap();
+                    if t.error.is_some() {
+                        errors += 1;
+                        if t.error.as_deref().map(|e| e.starts_with("HANG")).unwrap_or(false) {
+                            break;
+                        }
+                    }
+                }
+                out.flush().unwrap();
+                std::process::exit(if errors > 0 { 3 } else { 0 });
+            }
             for k in 0..n {
                 let tseed = seed.wrapping_mul(1_000_003).wrapping_add(k);
                 let t = gen::gen_trace(tseed, &profile);
@@ -157,13 +178,20 @@ fn main() {
             }
             let mut errors = 0;
             for (k, tr) in traces.iter().enumerate() {
-                let t = gen::replay(tr);
+                let unmanaged = tr.iter().any(|l| l.starts_with("cfg unmanaged"));
+                let (lines, err) = if unmanaged {
+                    let t = unmanaged::replay(tr);
+                    (t.lines, t.error)
+                } else {
+                    let t = gen::replay(tr);
+                    (t.lines, t.error)
+                };
                 writeln!(out, "trace {} replay", k).unwrap();
-                for l in &t.lines {
+                for l in &lines {
                     writeln!(out, "{}", l).unwrap();
                 }
                 writeln!(out, "end").unwrap();
-                if t.error.is_some() {
+                if err.is_some() {
                     errors += 1;
                 }
             }
